@@ -119,7 +119,7 @@ def gen_cases(ctx):
     return cases
 
 
-def observe(case):
+def _observe(case):
     import jax
     import jax.numpy as jnp
     import numpy as np
@@ -189,6 +189,12 @@ def observe(case):
         rec["lossy"] = bool(lossy)
         rec["dissipated_fraction"] = float(1 - np.min(Ws[-1] / Ws[0]))
     return rec
+
+
+def observe(case):
+    from harness import yee_sys as Y
+
+    return Y.safe_observe(_observe, case, "energy", TOL)
 
 
 def classify(rec, verdict):
